@@ -94,6 +94,11 @@ def check(prop, tier, seed):
         traces += sc.run_driver(run, binp, part, "sp-gomax%s" % gm, testname="TestSendPath", extra_env={"GOMAXPROCS": gm})
     run.traces = len(scns)
     rejects = sc.validate(run, traces, module="WireTrace", mods=["WireTrace.tla"])
+    # identifiers and numbering on the messages a session sends in answer to Logons it refuses or cannot read, and under boundary
+    # configurations (SessionTrace's history monitor "ids" and its C05-tagged comparisons)
+    cfg_scns = sc.gen_config() + sc.gen_prelogon(rnd, 40 if quick else 600)
+    rejects += [r for r in sc.validate(run, sc.run_driver(run, binp, cfg_scns, "sp-config")) if r[0] == "C05"]
+    run.traces += len(cfg_scns)
     # the whole library end to end over TCP: the byte stream each side really wrote, under bursts and transport back-pressure
     import stack_checks
     rejects += stack_checks.check(run, quick, seed)
@@ -104,6 +109,9 @@ def check(prop, tier, seed):
         if (r[2], r[3].get("kind"), r[3].get("gate")) in seen or len(run.violations) >= 10:
             continue
         seen.add((r[2], r[3].get("kind"), r[3].get("gate")))
+        if "#" in r[1] and sc.find_scenario(cfg_scns, r[1].split("#")[0]):
+            run.violation(r, {"property": prop, "kind": "session", "reject": r, "scenario": sc.find_scenario(cfg_scns, r[1].split("#")[0])})
+            continue
         run.violation(r, stack_checks.replay_obj(prop, r) or {"property": prop, "kind": "sendpath", "reject": r, "scenario": sc.find_scenario(scns, r[1])})
     if len(viol) > len(run.violations):
         run.notes.append("%d rejected executions in total" % len(viol))
